@@ -117,3 +117,47 @@ def evaluate_subject(prog, agg, fs, subject: str, **kw):
 def header_row(keys=None, log_times=False):
     ks = list(keys or KEYS) + (["computation_time"] if log_times else [])
     return ["subject_name"] + [f"{g}-{m}" for g in GROUPS for m in ks]
+
+
+def agg_paths(agg) -> tuple:
+    """(output file, claim file) of an aggregator object as strings, found among the paths the object keeps
+    (directly or inside an object it owns), not by attribute name: the claim file is the one whose name is
+    derived from the output file's by a suffix; the output file is the other *.tsv path."""
+    from .fsrun import PathV
+
+    found = []
+
+    def walk(v, depth):
+        if isinstance(v, PathV):
+            found.append(v.s)
+        elif isinstance(v, str) and v.endswith(".tsv"):
+            found.append(v)
+        elif isinstance(v, Obj) and depth < 3 and v.cls.name not in ("Panoptica_Evaluator",):
+            for x in v.attrs.values():
+                walk(x, depth + 1)
+        elif isinstance(v, (list, tuple)) and depth < 3 and len(v) <= 4:
+            for x in v:
+                walk(x, depth + 1)
+
+    if agg is None:
+        return None, None
+    for x in agg.attrs.values():
+        walk(x, 0)
+    paths = []
+    for x in found:
+        if x not in paths:
+            paths.append(x)
+    if len(paths) == 1:
+        return paths[0], None
+    if len(paths) >= 2:
+        # the claim file's name extends the stem of the output file's name
+        import posixpath
+
+        for o in paths:
+            stem = posixpath.basename(o)
+            stem = stem[: stem.rindex(".")] if "." in stem[1:] else stem
+            for b in paths:
+                if b != o and posixpath.dirname(b) == posixpath.dirname(o) and posixpath.basename(b).startswith(stem.split(".")[0]) and len(posixpath.basename(b)) > len(posixpath.basename(o)):
+                    return o, b
+        return paths[0], paths[1]
+    return None, None
